@@ -1965,15 +1965,23 @@ namespace xsimd
                 using int_batch = typename bitwise_cast_batch<T, A>::type;
                 using int_type = typename int_batch::value_type;
 
+                // the bit pattern of a negative value decreases when the value increases,
+                // and +-0 must step to the smallest denormal of the right sign
                 static XSIMD_INLINE batch_type next(const batch_type& b) noexcept
                 {
-                    batch_type n = ::xsimd::bitwise_cast<T>(::xsimd::bitwise_cast<int_type>(b) + int_type(1));
+                    int_batch i = ::xsimd::bitwise_cast<int_type>(b);
+                    batch_type up = ::xsimd::bitwise_cast<T>(i + int_type(1));
+                    batch_type down = ::xsimd::bitwise_cast<T>(i - int_type(1));
+                    batch_type n = select(b > batch_type(T(0)), up, select(b < batch_type(T(0)), down, batch_type(std::numeric_limits<T>::denorm_min())));
                     return select(b == constants::infinity<batch_type>(), b, n);
                 }
 
                 static XSIMD_INLINE batch_type prev(const batch_type& b) noexcept
                 {
-                    batch_type p = ::xsimd::bitwise_cast<T>(::xsimd::bitwise_cast<int_type>(b) - int_type(1));
+                    int_batch i = ::xsimd::bitwise_cast<int_type>(b);
+                    batch_type up = ::xsimd::bitwise_cast<T>(i + int_type(1));
+                    batch_type down = ::xsimd::bitwise_cast<T>(i - int_type(1));
+                    batch_type p = select(b > batch_type(T(0)), down, select(b < batch_type(T(0)), up, batch_type(-std::numeric_limits<T>::denorm_min())));
                     return select(b == constants::minusinfinity<batch_type>(), b, p);
                 }
             };
@@ -1983,7 +1991,8 @@ namespace xsimd
         {
             using kernel = detail::nextafter_kernel<T, A>;
             return select(from == to, from,
-                          select(to > from, kernel::next(from), kernel::prev(from)));
+                          select(isnan(from) || isnan(to), from + to,
+                                 select(to > from, kernel::next(from), kernel::prev(from))));
         }
 
         // pow
